@@ -26,7 +26,11 @@ p.add_argument("--sleep", type=float)
 p.add_argument("--crash", type=int, default=0)   # signal number the job sends to itself after its first report
 p.add_argument("--gate", type=int, default=0)    # 1: after the first report, wait for the file <trial dir>/gate
 p.add_argument("--st_checkpoint_dir", type=str, default=None)
+p.add_argument("--sigterm", type=int, default=0)  # 1: the script ignores SIGTERM, 2: it handles it and goes on for a while
 a, _ = p.parse_known_args()
+if a.sigterm:
+    import signal
+    signal.signal(signal.SIGTERM, signal.SIG_IGN if a.sigterm == 1 else (lambda *_: None))
 t0 = time.time()
 for step in range(a.first + 1, a.steps + 1):
     time.sleep(a.sleep)
@@ -309,6 +313,106 @@ def run_race_case(spec):
     return dict(outcome=outcome, events=events, opened=opened)
 
 
+def run_sigterm_case(spec):
+    """Jobs whose training script ignores (or handles and survives) SIGTERM; the scheduler answers STOP / PAUSE to the
+    first result of trial 0 while its job has many steps left. After stop_trial / pause_trial the backend marks the trial
+    stopped / paused and frees the worker, so the job's PROCESS has to be gone: observed on the Popen objects the backend
+    holds, ``grace`` seconds after run() returned (the decision was taken earlier still). Also counts the report lines
+    the stopped job appended to its std.out after the call. All processes are killed by the harness at the end."""
+    from syne_tune import Tuner, StoppingCriterion
+    from syne_tune.backend import LocalBackend
+    from syne_tune.optimizer.scheduler import TrialScheduler, TrialSuggestion, SchedulerDecision
+
+    decisions = []
+
+    class StopFirst(TrialScheduler):
+        def __init__(self):
+            super().__init__(config_space={"steps": spec["steps"], "first": 0, "sleep": 0.05, "sigterm": spec["sigterm"]})
+
+        def _suggest(self, trial_id):
+            return TrialSuggestion.start_suggestion(dict(self.config_space))
+
+        def on_trial_result(self, trial, result):
+            if trial.trial_id == 0 and not decisions:
+                decisions.append(spec["decision"])
+                return SchedulerDecision.STOP if spec["decision"] == "STOP" else SchedulerDecision.PAUSE
+            return SchedulerDecision.CONTINUE
+
+        def metric_names(self):
+            return ["m"]
+
+        def metric_mode(self):
+            return "min"
+
+    logging.disable(logging.CRITICAL)
+    old_folder = os.environ.get("SYNETUNE_FOLDER")
+    outcome, alive, lines_at_call, lines_later, called = ["normal"], [], None, None, []
+    procs = {}
+    try:
+        with tempfile.TemporaryDirectory(prefix="verif-local-") as tmp, contextlib.redirect_stdout(io.StringIO()):
+            os.environ["SYNETUNE_FOLDER"] = tmp
+            script = os.path.join(tmp, "train_steps.py")
+            with open(script, "w") as f:
+                f.write(SCRIPT)
+            backend = LocalBackend(entry_point=script)
+            n_lines = lambda t: sum(1 for line in backend.stdout(t) if "tune-metric" in line)
+            for name in ("stop_trial", "pause_trial"):
+                def hooked(trial_id, result=None, _orig=getattr(backend, name), _name=name):
+                    out = _orig(trial_id=trial_id, result=result)
+                    called.append([_name, trial_id, time.time(), n_lines(trial_id)])
+                    return out
+                setattr(backend, name, hooked)
+            tuner = Tuner(trial_backend=backend, scheduler=StopFirst(),
+                          stop_criterion=StoppingCriterion(max_num_trials_started=1, max_wallclock_time=20),
+                          n_workers=1, sleep_time=spec["poll"], max_failures=0, tuner_name="verif-local-sigterm",
+                          callbacks=[], suffix_tuner_name=False, save_tuner=False)
+            try:
+                try:
+                    tuner.run()
+                except Exception as e:
+                    outcome = ["exception", type(e).__name__, str(e)[:120]]
+                procs = dict(backend.trial_subprocess)
+                deadline = time.time() + spec["grace"]
+                while time.time() < deadline and any(p.poll() is None for p in procs.values()):
+                    time.sleep(0.05)
+                alive = sorted(t for t, p in procs.items() if p.poll() is None)
+                first = [c for c in called if c[1] == 0]
+                if first:
+                    lines_at_call, lines_later = first[0][3], n_lines(0)
+            finally:
+                for p in dict(backend.trial_subprocess).values():
+                    if p.poll() is None:
+                        p.kill()
+                    with contextlib.suppress(Exception):
+                        p.wait(timeout=3)
+    finally:
+        logging.disable(logging.NOTSET)
+        if old_folder is None:
+            os.environ.pop("SYNETUNE_FOLDER", None)
+        else:
+            os.environ["SYNETUNE_FOLDER"] = old_folder
+    return dict(outcome=outcome, alive=alive, called=[[c[0], c[1]] for c in called], decided=list(decisions),
+                lines_at_call=lines_at_call, lines_later=lines_later)
+
+
+def check_sigterm(spec, out):
+    if not out["decided"] or not out["called"]:
+        return []
+    if out["alive"] or (out["lines_later"] or 0) > (out["lines_at_call"] or 0) + 2:
+        return [("the job scripts handle SIGTERM (mode %d); the scheduler answered %s for trial 0, %s returned and the worker was "
+                 "given to trial 1; %.1f s after run() returned the processes of trials %s are still alive; the job of "
+                 "trial 0 had written %s reports when the call returned and %s later (n_workers=1)"
+                 % (spec["sigterm"], spec["decision"], [c[0] for c in out["called"]], spec["grace"], out["alive"],
+                    out["lines_at_call"], out["lines_later"]),
+                 dict(check="budget", event="process_alive_after_stop_or_pause", backend="local", decision=spec["decision"]))]
+    return []
+
+
+def gen_sigterm_spec(rng, k):
+    return dict(kind="local", scenario="sigterm", sigterm=1 + k % 2, decision=["STOP", "PAUSE"][k % 2], steps=120,
+                poll=rng.choice([0.1, 0.2]), grace=1.2)
+
+
 def check_race(spec, out):
     """Every job whose gate was opened wrote reports 1..steps and exited with code 0 before the status was read: the
     scheduler is told about every report, in order, and then - once - that the trial completed, with the final report."""
@@ -337,8 +441,17 @@ def gen_race_spec(rng, k):
 
 
 def run_local_race(ctx, replay_cases):
-    specs = replay_cases if replay_cases is not None else [gen_race_spec(ctx.rng, k) for k in range(ctx.n(2, 8))]
+    specs = replay_cases if replay_cases is not None else (
+        [gen_race_spec(ctx.rng, k) for k in range(ctx.n(2, 8))] + [gen_sigterm_spec(ctx.rng, k) for k in range(ctx.n(2, 6))])
     for spec in specs:
+        if spec.get("scenario") == "sigterm":
+            out = run_sigterm_case(spec)
+            ctx.count(dict(spec), nontrivial=bool(out["decided"] and out["called"]))
+            ctx.traces_validated += 1
+            ctx.h("local_backend_sigterm", "%s,%s,alive=%d" % (out["outcome"][0], spec["decision"], len(out["alive"])))
+            for what, sig in check_sigterm(spec, out):
+                ctx.violation("property", "[LocalBackend] " + what, case=dict(spec), signature=sig)
+            continue
         out = run_race_case(spec)
         ctx.count(dict(spec), nontrivial=bool(out["opened"]))
         ctx.traces_validated += 1
